@@ -550,6 +550,10 @@ def make_stop(b, s, hooks=True):
     if hooks:
         sensor = RecordingSensor(sensor, b)
     thr = mkq(s['thr'])
+    if s['thr']['k'] == 'AngularPosition' and s['thr']['v'] >= 0 and __import__('zlib').crc32(repr(float(s['thr']['v'])).encode()) % 3 == 0:
+        # a third of the non-negative position thresholds are handed over as Angle objects (a legal AngularPosition); the choice is a
+        # function of the number so that a replay and a twin run make the same one
+        thr = g().un.Angle(s['thr']['v'], s['thr']['u'])
     # the threshold object the user handed over is remembered with what it was: it must come back from every run unchanged
     b.thresholds = getattr(b, 'thresholds', []) + [(thr, thr.value, thr.unit, type(thr).__name__)]
     return ut.StopCondition(sensor=sensor, threshold=thr, operator=getattr(ut.StopCondition, OPS[s['op']]))
